@@ -20,7 +20,7 @@ var c17Groups = []string{
 
 // layouts: "@1"/"@2" stand for the instruction groups; M1/M2 for their modes
 var c17Layouts = []string{
-	"@1",                                   // no BITS directive: 16-bit
+	"@1", // no BITS directive: 16-bit
 	"[BITS M1] ; @1",
 	"QX EQU 5 ; GLOBAL foo ; [FILE \"a.nas\"] ; here: ; [BITS M1] ; @1",
 	"DB 0x55,0xAA ; [BITS M1] ; @1",
